@@ -1,6 +1,7 @@
 import BoboVerif.Model.Run
 import BoboVerif.Model.Decider
 import BoboVerif.Lemmas.Run
+import BoboVerif.Lemmas.GenRun
 /-!
 C14 — A failing predicate cannot corrupt or stop detection.
 
@@ -139,3 +140,20 @@ example : (process exPat (newRun "r0" exPat "a" 0) 7).1 = .raised := by decide
 end example_
 
 end Bobo.Decider
+
+/-! G-tie (C14): the block walk of run.py regenerated on this run is the model's `walk`. -/
+namespace Bobo.Run
+/-- `_process_loop` / `_process_not_loop` / the gate of `process` / `_move_forward` as they stand in the source now
+(Gen/RunWalk.lean) are what the model's `walk`, `process` and `moveForward` do. -/
+theorem run_source_walk_c14 {ε : Type} (n : Nat) (e : ε) (b : Block ε) (rest : List (Block ε)) (i : Nat) (r : Run ε) :
+    (walk n e (b :: rest) i r =
+      match isMatch b.preds e r.hist with
+      | none => (.raised, r)
+      | some m => applyAct n e b rest i r
+          (if b.loop then Bobo.Gen.RunWalk.loopAct m b.strict
+           else Bobo.Gen.RunWalk.notLoopAct m b.negated b.optional b.strict)) ∧
+    Bobo.Gen.RunWalk.processSteps = processStepsModel ∧
+    Bobo.Gen.RunWalk.moveForwardStmts =
+      ["self._add_event(event, block)", "self._block_index = temp_index + 1", "self._halted = self.is_complete()"] :=
+  ⟨gen_walk_eq n e b rest i r, gen_processSteps_eq, gen_moveForward_eq⟩
+end Bobo.Run
